@@ -347,7 +347,7 @@ def check_unit(name, canary=True, rlimit=None, keep=False, mutate=None):
         r['wall'] = time.time() - t0
         return r
     os.makedirs(os.path.join(CACHE, 'gen'), exist_ok=True)
-    tag = ('.' + mutate['id']) if mutate else ''
+    tag = ('__' + re.sub(r'\W', '_', mutate['id'])) if mutate else ''
     path = os.path.join(CACHE, 'gen', 'vk_%s%s.rs' % (name, tag))
     open(path, 'w').write(text)
     res = run_verus(path, rlimit or unit.get('rlimit', 60))
@@ -364,10 +364,12 @@ def check_unit(name, canary=True, rlimit=None, keep=False, mutate=None):
     if canary and not mutate and not c['failed'] and not c['inconclusive']:
         try:
             ctext, cinfo = build_unit(unit, canary=True)
-            cpath = os.path.join(CACHE, 'gen', 'vk_%s.canary.rs' % name)
+            cpath = os.path.join(CACHE, 'gen', 'vk_%s__canary.rs' % name)
             open(cpath, 'w').write(ctext)
             cres = run_verus(cpath, rlimit or unit.get('rlimit', 60))
             cc = classify(cres, cinfo, name)
+            if cc['inconclusive']:
+                raise Inconclusive('; '.join(cc['inconclusive'])[:600])
             failed_fns = set(x['fn'] for x in cc['failed'])
             missing = [k for k in declared if k not in failed_fns]
             r['canary'] = dict(expected=len(declared), failed_as_required=len(declared) - len(missing), wall=cres['wall'])
